@@ -3,3 +3,599 @@ From BVA Require Import Base.Prelude Base.Result Base.Words Base.Limbs.
 From BVA Require Import Model.Core Model.Ops Model.Arith Model.Conv Model.Auto Model.Run Spec.Spec Spec.Prop Spec.CaseOk.
 From BVA Require Import Proofs.Common Proofs.Rechunk Proofs.Lift.
 From Coq Require Import ZifyBool ZifyN ZifyNat.
+From BVA Require Import Proofs.Mul Proofs.Pairings Proofs.ConvP Proofs.XEdit Proofs.Append Proofs.Forms.
+
+(* The master theorem, part B: edits and operators (operation codes 40..97).
+   For every case inside the scope `case_okb`, the result the model computes (`run_case`)
+   satisfies the property relation (`prop_case`). *)
+
+(* ------------------------------------------------------------------ bridge: boolean scope -> Prop *)
+
+Lemma std_widthb_spec w : std_widthb w = true -> std_width w.
+Proof.
+  unfold std_widthb, std_width. cbn [In]. rewrite !orb_true_iff, !N.eqb_eq.
+  intros [[[[H|H]|H]|H]|H]; subst w; auto 6.
+Qed.
+
+Lemma goodb_Good x : goodb x = true -> Good x.
+Proof.
+  unfold goodb, Good. rewrite andb_true_iff, canonb_spec.
+  intros [Hc Hw]. split; [assumption|apply std_widthb_spec; assumption].
+Qed.
+
+Lemma Good_canonb r : Good r -> canonb r = true.
+Proof. intros [Hc _]. apply canonb_spec. assumption. Qed.
+
+Lemma case_ok_inv c : case_okb c = true -> Forall Good (c_vals c) /\ args_okb c = true.
+Proof.
+  unfold case_okb. rewrite !andb_true_iff. intros [[Hv _] Ha]. split; [|assumption].
+  apply Forall_forall. intros x Hx. apply goodb_Good.
+  rewrite forallb_forall in Hv. apply Hv. assumption.
+Qed.
+
+Lemma nvals0 c : nvals c 0 = true -> c_vals c = [].
+Proof. unfold nvals. destruct (c_vals c) as [|a l]; [reflexivity|discriminate]. Qed.
+
+Lemma nvals1 c : nvals c 1 = true -> exists a, c_vals c = [a].
+Proof.
+  unfold nvals. destruct (c_vals c) as [|a [|b l]]; try discriminate. intros _. eauto.
+Qed.
+
+Lemma nvals2 c : nvals c 2 = true -> exists a b, c_vals c = [a; b].
+Proof.
+  unfold nvals. destruct (c_vals c) as [|a [|b [|d l]]]; try discriminate. intros _. eauto.
+Qed.
+
+Lemma view1 c : Forall Good (c_vals c) -> nvals c 1 = true -> exists a, c_vals c = [a] /\ Good a.
+Proof.
+  intros HF Hn. destruct (nvals1 c Hn) as (a & E). exists a. split; [assumption|].
+  rewrite E in HF. inversion HF. assumption.
+Qed.
+
+Lemma view2 c : Forall Good (c_vals c) -> nvals c 2 = true ->
+  exists a b, c_vals c = [a; b] /\ Good a /\ Good b.
+Proof.
+  intros HF Hn. destruct (nvals2 c Hn) as (a & b & E). exists a, b. split; [assumption|].
+  rewrite E in HF. inversion HF as [|? ? Ha HF']. inversion HF' as [|? ? Hb _]. split; assumption.
+Qed.
+
+Lemma val0_of c a l : c_vals c = a :: l -> Run.val c 0 = Ok a.
+Proof. intros E. unfold Run.val. rewrite E. reflexivity. Qed.
+Lemma val1_of c a b l : c_vals c = a :: b :: l -> Run.val c 1 = Ok b.
+Proof. intros E. unfold Run.val. rewrite E. reflexivity. Qed.
+Lemma sval0_of c a l : c_vals c = a :: l -> sval c 0 = Some (kind_of a, abs a).
+Proof. intros E. unfold sval. rewrite E. reflexivity. Qed.
+Lemma sval1_of c a b l : c_vals c = a :: b :: l -> sval c 1 = Some (kind_of b, abs b).
+Proof. intros E. unfold sval. rewrite E. reflexivity. Qed.
+Lemma sval0_nil c : c_vals c = [] -> sval c 0 = None.
+Proof. intros E. unfold sval. rewrite E. reflexivity. Qed.
+Lemma len0_of c a l : c_vals c = a :: l -> len0 c = xlen a.
+Proof. intros E. unfold len0. rewrite E. reflexivity. Qed.
+Lemma len1_of c a b l : c_vals c = a :: b :: l -> len1 c = xlen b.
+Proof. intros E. unfold len1. rewrite E. reflexivity. Qed.
+
+Lemma A1_eq : A1 = 2 ^ 62.
+Proof. unfold A1. apply pow2_eq. Qed.
+
+(* ------------------------------------------------------------------ the result relation *)
+
+Lemma bv_eqb_refl v : bv_eqb v v = true.
+Proof. unfold bv_eqb. rewrite !N.eqb_refl. reflexivity. Qed.
+
+Lemma item_ok_cap k v lo hi r :
+  Good r -> kind_matches k r = true -> abs r = v -> lo <= x_capacity r ->
+  match hi with Some h => x_capacity r <= h | None => True end ->
+  item_ok (SV k v lo hi) (IV r) = true.
+Proof.
+  intros Hr Hk Ha Hlo Hhi. cbn [item_ok]. rewrite Hk, (Good_canonb r Hr), Ha, bv_eqb_refl.
+  apply N.leb_le in Hlo. rewrite Hlo. cbn [andb].
+  destruct hi as [h|]; [apply N.leb_le; assumption|reflexivity].
+Qed.
+
+Lemma item_ok_sv k v r :
+  Good r -> kind_matches k r = true -> abs r = v -> item_ok (sv k v) (IV r) = true.
+Proof.
+  intros Hr Hk Ha. unfold sv. apply item_ok_cap; try assumption; [apply N.le_0_l|exact I].
+Qed.
+
+Lemma kind_matches_same a r : kind_of r = kind_of a -> kind_matches (kind_of a) r = true.
+Proof. intros <-. apply kind_matches_of. Qed.
+
+Lemma item_ok_same a v r :
+  Good r -> kind_of r = kind_of a -> abs r = v -> item_ok (sv (kind_of a) v) (IV r) = true.
+Proof. intros Hr Hk Ha. apply item_ok_sv; [assumption|apply kind_matches_same; assumption|assumption]. Qed.
+
+(* the common shape: one result vector of the left operand's type *)
+Lemma ret_v_same a v m :
+  (exists r, m = Ok r /\ Good r /\ kind_of r = kind_of a /\ abs r = v) ->
+  res_ok (SOk [sv (kind_of a) v]) (ret_v m) = true.
+Proof.
+  intros (r & -> & Hr & Hk & Ha). cbn [ret_v bind res_ok items_ok].
+  rewrite (item_ok_same a v r Hr Hk Ha). reflexivity.
+Qed.
+
+Lemma res_ok_dbg P m : (P = Debug -> m = Panic) -> res_ok (dbg_or_free P) m = true.
+Proof. destruct P; cbn [dbg_or_free res_ok]; [|reflexivity]. intros ->; reflexivity. Qed.
+
+Lemma prop_case_res c r : c_op c <> 37 -> prop_case c r = res_ok (spec_case c) r.
+Proof. intros H. unfold prop_case. apply N.eqb_neq in H. rewrite H. reflexivity. Qed.
+
+(* unfold the interpreter and the specification at a known operation code *)
+Ltac open_case Hop :=
+  rewrite prop_case_res by (rewrite Hop; discriminate);
+  unfold run_case, spec_case; rewrite Hop; cbv beta iota zeta.
+
+Ltac args_of Hok Hop HF Ha :=
+  destruct (case_ok_inv _ Hok) as [HF Ha]; unfold args_okb in Ha; rewrite Hop in Ha; cbv beta iota in Ha.
+
+(* ------------------------------------------------------------------ edits *)
+
+Lemma master_op_40 c : c_op c = 40 -> case_okb c = true -> prop_case c (run_case c) = true.
+Proof.
+  intros Hop Hok. args_of Hok Hop HF Ha.
+  apply andb_true_iff in Ha. destruct Ha as [Hn Hb]. apply N.leb_le in Hb.
+  destruct (view1 c HF Hn) as (a & E & Ga).
+  open_case Hop. rewrite (val0_of c a [] E), (sval0_of c a [] E). cbn [bind].
+  rewrite blen_abs.
+  destruct (N.ltb_spec (arg c 0) (xlen a)) as [Hlt|Hge].
+  - apply ret_v_same. apply x_set_spec; assumption.
+  - apply res_ok_dbg. intros ->. rewrite x_set_debug_oob by assumption. reflexivity.
+Qed.
+
+Lemma master_op_41 c : c_op c = 41 -> case_okb c = true -> prop_case c (run_case c) = true.
+Proof.
+  intros Hop Hok. args_of Hok Hop HF Ha.
+  apply andb_true_iff in Ha. destruct Ha as [Hn Hb]. apply N.leb_le in Hb.
+  destruct (view1 c HF Hn) as (a & E & Ga).
+  open_case Hop. rewrite (val0_of c a [] E), (sval0_of c a [] E). cbn [bind].
+  rewrite blen_abs.
+  destruct (x_push_spec (c_prof c) a (arg c 0) Ga Hb) as [Hp Hs].
+  destruct (fits (kind_of a) (xlen a + 1)) eqn:Ef.
+  - apply ret_v_same. apply Hs. reflexivity.
+  - rewrite Hp by reflexivity. reflexivity.
+Qed.
+
+Lemma master_op_42 c : c_op c = 42 -> case_okb c = true -> prop_case c (run_case c) = true.
+Proof.
+  intros Hop Hok. args_of Hok Hop HF Hn.
+  destruct (view1 c HF Hn) as (a & E & Ga).
+  open_case Hop. rewrite (val0_of c a [] E), (sval0_of c a [] E). cbn [bind].
+  rewrite blen_abs.
+  destruct (x_pop_spec (c_prof c) a Ga) as (r & o & -> & Gr & Kr & H0 & H1). cbn [bind].
+  destruct (N.eqb_spec (xlen a) 0) as [Hz|Hnz]; cbn [res_ok items_ok].
+  - destruct (H0 Hz) as [Ar ->]. rewrite (item_ok_same a (abs a) r Gr Kr Ar). reflexivity.
+  - destruct H1 as [Ar ->]; [lia|]. rewrite (item_ok_same a _ r Gr Kr Ar).
+    cbn [opt2n item_ok andb]. unfold sbit. rewrite (abs_Good a Ga). cbn [bval].
+    rewrite N.eqb_refl. reflexivity.
+Qed.
+
+Lemma master_op_43 c : c_op c = 43 -> case_okb c = true -> prop_case c (run_case c) = true.
+Proof.
+  intros Hop Hok. args_of Hok Hop HF Ha.
+  rewrite !andb_true_iff in Ha. destruct Ha as [[Hn Hb] _]. apply N.leb_le in Hb.
+  destruct (view1 c HF Hn) as (a & E & Ga).
+  open_case Hop. rewrite (val0_of c a [] E), (sval0_of c a [] E). cbn [bind].
+  rewrite blen_abs.
+  destruct (x_resize_spec a (arg c 0) (arg c 1) Ga Hb) as [Hp Hs].
+  destruct (fits (kind_of a) (arg c 0)) eqn:Ef; cbn [orb].
+  - apply ret_v_same. apply Hs. left. reflexivity.
+  - destruct (N.leb_spec (arg c 0) (xlen a)) as [Hle|Hgt].
+    + apply ret_v_same. apply Hs. right. assumption.
+    + rewrite Hp by (reflexivity || assumption). reflexivity.
+Qed.
+
+Lemma master_op_44 c : c_op c = 44 -> case_okb c = true -> prop_case c (run_case c) = true.
+Proof.
+  intros Hop Hok. args_of Hok Hop HF Ha.
+  rewrite !andb_true_iff in Ha. destruct Ha as [Hn _].
+  destruct (view1 c HF Hn) as (a & E & Ga).
+  open_case Hop. rewrite (val0_of c a [] E), (sval0_of c a [] E). cbn [bind].
+  apply ret_v_same. apply x_truncate_spec. assumption.
+Qed.
+
+Lemma master_op_45 c : c_op c = 45 -> case_okb c = true -> prop_case c (run_case c) = true.
+Proof.
+  intros Hop Hok. args_of Hok Hop HF Ha.
+  rewrite !andb_true_iff in Ha. destruct Ha as [Hn _].
+  destruct (view1 c HF Hn) as (a & E & Ga).
+  open_case Hop. rewrite (val0_of c a [] E), (sval0_of c a [] E). cbn [bind].
+  rewrite blen_abs.
+  destruct (x_sign_extend_spec (c_prof c) a (arg c 0) Ga) as [Hp Hs].
+  destruct (fits (kind_of a) (arg c 0)) eqn:Ef; cbn [orb].
+  - apply ret_v_same. apply Hs. left. reflexivity.
+  - destruct (N.leb_spec (arg c 0) (xlen a)) as [Hle|Hgt].
+    + apply ret_v_same. apply Hs. right. assumption.
+    + rewrite Hp by (reflexivity || assumption). reflexivity.
+Qed.
+
+Lemma master_op_46 c : c_op c = 46 -> case_okb c = true -> prop_case c (run_case c) = true.
+Proof.
+  intros Hop Hok. args_of Hok Hop HF Ha.
+  rewrite !andb_true_iff in Ha. destruct Ha as [Hn _].
+  destruct (view2 c HF Hn) as (a & b & E & Ga & Gb).
+  open_case Hop. rewrite (val0_of c a _ E), (val1_of c a b _ E), (sval0_of c a _ E), (sval1_of c a b _ E).
+  cbn [bind]. rewrite !blen_abs.
+  destruct (x_append_spec a b Ga Gb) as [Hp Hs].
+  destruct (fits (kind_of a) (xlen a + xlen b)) eqn:Ef.
+  - apply ret_v_same. apply Hs. reflexivity.
+  - rewrite Hp by reflexivity. reflexivity.
+Qed.
+
+Lemma master_op_47 c : c_op c = 47 -> case_okb c = true -> prop_case c (run_case c) = true.
+Proof.
+  intros Hop Hok. args_of Hok Hop HF Ha.
+  rewrite !andb_true_iff in Ha. destruct Ha as [Hn Hl].
+  destruct (view2 c HF Hn) as (a & b & E & Ga & Gb).
+  rewrite (len0_of c a _ E), (len1_of c a b _ E), A1_eq in Hl. apply N.ltb_lt in Hl.
+  open_case Hop. rewrite (val0_of c a _ E), (val1_of c a b _ E), (sval0_of c a _ E), (sval1_of c a b _ E).
+  cbn [bind]. rewrite !blen_abs.
+  destruct (x_prepend_spec a b Ga Gb Hl) as [Hp Hs].
+  destruct (fits (kind_of a) (xlen a + xlen b)) eqn:Ef.
+  - apply ret_v_same. apply Hs. reflexivity.
+  - rewrite Hp by reflexivity. reflexivity.
+Qed.
+
+Lemma split_off_items P a i :
+  Good a -> i <= xlen a ->
+  exists lo hi, x_split_off P a i = Ok (lo, hi) /\
+    item_ok (sv (kind_of a) (s_slice (abs a) 0 i)) (IV lo) = true /\
+    item_ok (sv (kind_of a) (s_slice (abs a) i (xlen a))) (IV hi) = true.
+Proof.
+  intros Ga Hi.
+  destruct (x_split_off_spec P a i Ga Hi) as (lo & hi & Hr & Glo & Ghi & Klo & Khi & Alo & Ahi).
+  exists lo, hi. split; [assumption|]. split; apply item_ok_same; assumption.
+Qed.
+
+Lemma master_op_49 c : c_op c = 49 -> case_okb c = true -> prop_case c (run_case c) = true.
+Proof.
+  intros Hop Hok. args_of Hok Hop HF Hn.
+  destruct (view1 c HF Hn) as (a & E & Ga).
+  open_case Hop. rewrite (val0_of c a [] E), (sval0_of c a [] E). cbn [bind].
+  rewrite blen_abs.
+  destruct (N.leb_spec (arg c 0) (xlen a)) as [Hle|Hgt].
+  - destruct (split_off_items (c_prof c) a (arg c 0) Ga Hle) as (lo & hi & -> & Ilo & Ihi).
+    cbn [bind res_ok items_ok]. rewrite Ilo, Ihi. reflexivity.
+  - apply res_ok_dbg. intros ->. rewrite x_split_off_debug_oob by assumption. reflexivity.
+Qed.
+
+Lemma master_op_50 c : c_op c = 50 -> case_okb c = true -> prop_case c (run_case c) = true.
+Proof.
+  intros Hop Hok. args_of Hok Hop HF Hn.
+  destruct (view1 c HF Hn) as (a & E & Ga).
+  open_case Hop. rewrite (val0_of c a [] E), (sval0_of c a [] E). cbn [bind].
+  rewrite blen_abs.
+  destruct (N.leb_spec (arg c 0) (xlen a)) as [Hle|Hgt].
+  - destruct (split_off_items (c_prof c) a (arg c 0) Ga Hle) as (lo & hi & -> & Ilo & Ihi).
+    cbn [bind res_ok items_ok]. rewrite Ilo, Ihi. reflexivity.
+  - apply res_ok_dbg. intros ->. rewrite x_split_off_debug_oob by assumption. reflexivity.
+Qed.
+
+Lemma master_op_51 c : c_op c = 51 -> case_okb c = true -> prop_case c (run_case c) = true.
+Proof.
+  intros Hop Hok. args_of Hok Hop HF Hn.
+  destruct (view1 c HF Hn) as (a & E & Ga).
+  open_case Hop. rewrite (val0_of c a [] E), (sval0_of c a [] E). cbn [bind].
+  rewrite blen_abs.
+  destruct (N.leb_spec (arg c 0) (arg c 1)) as [H01|H01]; cbn [andb].
+  - destruct (N.leb_spec (arg c 1) (xlen a)) as [H1n|H1n].
+    + apply ret_v_same. apply x_copy_range_spec; assumption.
+    + assert ((xlen a <? arg c 0) || (xlen a <? arg c 1) = true) as ->.
+      { apply orb_true_iff. right. apply N.ltb_lt. assumption. }
+      apply res_ok_dbg. intros ->. rewrite x_copy_range_debug_oob by (right; assumption). reflexivity.
+  - destruct ((xlen a <? arg c 0) || (xlen a <? arg c 1)) eqn:Eo; [|reflexivity].
+    apply res_ok_dbg. intros ->. rewrite x_copy_range_debug_oob; [reflexivity|].
+    apply orb_true_iff in Eo. destruct Eo as [H|H]; apply N.ltb_lt in H; [left|right]; assumption.
+Qed.
+
+Lemma norm_bit b : b <= 1 -> (if b =? 0 then 0 else 1) = b.
+Proof. intros H. destruct (N.eqb_spec b 0); lia. Qed.
+
+Lemma master_op_52 c : c_op c = 52 -> case_okb c = true -> prop_case c (run_case c) = true.
+Proof.
+  intros Hop Hok. args_of Hok Hop HF Ha.
+  apply andb_true_iff in Ha. destruct Ha as [Hn Hb]. apply N.leb_le in Hb.
+  destruct (view1 c HF Hn) as (a & E & Ga).
+  open_case Hop. rewrite (val0_of c a [] E), (sval0_of c a [] E). cbn [bind].
+  rewrite (norm_bit _ Hb).
+  destruct (x_shl_in_spec a (arg c 0) Ga Hb) as (Gr & Kr & Er).
+  destruct (x_shl_in a (arg c 0)) as [y b]. cbn [fst snd] in *. rewrite <- Er.
+  cbn [res_ok items_ok item_ok]. rewrite (item_ok_same a (abs y) y Gr Kr eq_refl), N.eqb_refl. reflexivity.
+Qed.
+
+Lemma master_op_53 c : c_op c = 53 -> case_okb c = true -> prop_case c (run_case c) = true.
+Proof.
+  intros Hop Hok. args_of Hok Hop HF Ha.
+  apply andb_true_iff in Ha. destruct Ha as [Hn Hb]. apply N.leb_le in Hb.
+  destruct (view1 c HF Hn) as (a & E & Ga).
+  open_case Hop. rewrite (val0_of c a [] E), (sval0_of c a [] E). cbn [bind].
+  rewrite (norm_bit _ Hb).
+  destruct (x_shr_in_spec a (arg c 0) Ga Hb) as (Gr & Kr & Er).
+  destruct (x_shr_in a (arg c 0)) as [y b]. cbn [fst snd] in *. rewrite <- Er.
+  cbn [res_ok items_ok item_ok]. rewrite (item_ok_same a (abs y) y Gr Kr eq_refl), N.eqb_refl. reflexivity.
+Qed.
+
+Lemma master_op_54 c : c_op c = 54 -> case_okb c = true -> prop_case c (run_case c) = true.
+Proof.
+  intros Hop Hok. args_of Hok Hop HF Hn.
+  destruct (view1 c HF Hn) as (a & E & Ga).
+  open_case Hop. rewrite (val0_of c a [] E), (sval0_of c a [] E). cbn [bind].
+  rewrite blen_abs.
+  destruct (N.leb_spec (arg c 0) (xlen a)) as [Hle|Hgt]; [|reflexivity].
+  apply ret_v_same. apply x_rotl_spec; assumption.
+Qed.
+
+Lemma master_op_55 c : c_op c = 55 -> case_okb c = true -> prop_case c (run_case c) = true.
+Proof.
+  intros Hop Hok. args_of Hok Hop HF Hn.
+  destruct (view1 c HF Hn) as (a & E & Ga).
+  open_case Hop. rewrite (val0_of c a [] E), (sval0_of c a [] E). cbn [bind].
+  rewrite blen_abs.
+  destruct (N.leb_spec (arg c 0) (xlen a)) as [Hle|Hgt]; [|reflexivity].
+  apply ret_v_same. apply x_rotr_spec; assumption.
+Qed.
+
+Lemma master_op_56 c : c_op c = 56 -> case_okb c = true -> prop_case c (run_case c) = true.
+Proof.
+  intros Hop Hok. args_of Hok Hop HF Ha.
+  apply andb_true_iff in Ha. destruct Ha as [Hn _].
+  destruct (view1 c HF Hn) as (a & E & Ga).
+  open_case Hop. rewrite (val0_of c a [] E), (sval0_of c a [] E). cbn [bind].
+  rewrite blen_abs.
+  destruct (x_reserve_gen a (arg c 0) Ga) as (r & -> & Gr & Kr & Ar & Hcap).
+  cbn [ret_v bind res_ok items_ok]. rewrite item_ok_cap; try assumption; try reflexivity.
+  - apply kind_matches_same. assumption.
+  - destruct (kind_fixed (kind_of a)); [apply N.le_0_l|apply Hcap; reflexivity].
+Qed.
+
+Lemma master_op_57 c : c_op c = 57 -> case_okb c = true -> prop_case c (run_case c) = true.
+Proof.
+  intros Hop Hok. args_of Hok Hop HF Hn.
+  destruct (view1 c HF Hn) as (a & E & Ga).
+  open_case Hop. rewrite (val0_of c a [] E), (sval0_of c a [] E). cbn [bind].
+  rewrite blen_abs.
+  destruct (x_shrink_to_fit_strong a Ga) as (r & -> & Gr & Kr & Ar & Hcap).
+  cbn [ret_v bind res_ok items_ok]. rewrite item_ok_cap; try assumption; try reflexivity.
+  - apply kind_matches_same. assumption.
+  - apply N.le_0_l.
+Qed.
+
+Lemma all_lt2_bits l : all_lt 2 l = true -> Forall (fun b => b <= 1) l.
+Proof.
+  unfold all_lt. rewrite forallb_forall. intros H. apply Forall_forall. intros x Hx.
+  specialize (H x Hx). apply N.ltb_lt in H. lia.
+Qed.
+
+Lemma master_op_58 c : c_op c = 58 -> case_okb c = true -> prop_case c (run_case c) = true.
+Proof.
+  intros Hop Hok. args_of Hok Hop HF Ha.
+  rewrite !andb_true_iff in Ha. destruct Ha as [[Hn Hb] _]. apply all_lt2_bits in Hb.
+  destruct (view1 c HF Hn) as (a & E & Ga).
+  open_case Hop. rewrite (val0_of c a [] E), (sval0_of c a [] E). cbn [bind].
+  rewrite blen_abs.
+  destruct (x_extend_spec (c_prof c) a (arg c 0) (lst c 0) Ga Hb) as [Hp Hs].
+  destruct (fits (kind_of a) (xlen a + lenw (lst c 0))) eqn:Ef.
+  - apply ret_v_same. apply Hs. reflexivity.
+  - rewrite Hp by reflexivity. reflexivity.
+Qed.
+
+(* ------------------------------------------------------------------ operators *)
+
+Lemma master_op_60 c : c_op c = 60 -> case_okb c = true -> prop_case c (run_case c) = true.
+Proof.
+  intros Hop Hok. args_of Hok Hop HF Hn.
+  destruct (view1 c HF Hn) as (a & E & Ga).
+  open_case Hop. rewrite (val0_of c a [] E), (sval0_of c a [] E). cbn [bind].
+  apply ret_v_same.
+  destruct (x_not_spec (byref_lhs c) a Ga) as (r & Hr & Gr & Kr & _ & Ar). eauto.
+Qed.
+
+Lemma shift_args c :
+  nvals c 1 && std_widthb (arg c 0) && (arg c 1 <? pow2 (arg c 0)) && (len0 c <? A1) = true ->
+  Forall Good (c_vals c) -> exists a, c_vals c = [a] /\ Good a /\ xlen a < 2 ^ 62.
+Proof.
+  intros Ha HF. rewrite !andb_true_iff in Ha. destruct Ha as [[[Hn _] _] Hl].
+  destruct (view1 c HF Hn) as (a & E & Ga). exists a. split; [assumption|]. split; [assumption|].
+  rewrite (len0_of c a _ E), A1_eq in Hl. apply N.ltb_lt. assumption.
+Qed.
+
+Lemma master_op_61 c : c_op c = 61 -> case_okb c = true -> prop_case c (run_case c) = true.
+Proof.
+  intros Hop Hok. args_of Hok Hop HF Ha.
+  destruct (shift_args c Ha HF) as (a & E & Ga & Hl).
+  open_case Hop. rewrite (val0_of c a [] E), (sval0_of c a [] E). cbn [bind].
+  apply ret_v_same. apply x_shl_spec; assumption.
+Qed.
+
+Lemma master_op_62 c : c_op c = 62 -> case_okb c = true -> prop_case c (run_case c) = true.
+Proof.
+  intros Hop Hok. args_of Hok Hop HF Ha.
+  destruct (shift_args c Ha HF) as (a & E & Ga & Hl).
+  open_case Hop. rewrite (val0_of c a [] E), (sval0_of c a [] E). cbn [bind].
+  apply ret_v_same. apply x_shr_spec; assumption.
+Qed.
+
+(* binary operators: the right operand is a second vector or a native integer [t; x] *)
+Lemma binop_core c (f : bvx -> bvx -> outcome bvx) (sf : bv -> bv -> bv) :
+  (forall a b, Good a -> Good b ->
+     exists r, f a b = Ok r /\ Good r /\ kind_of r = kind_of a /\ abs r = sf (abs a) (abs b)) ->
+  Forall Good (c_vals c) -> binop_okb c = true ->
+  exists a l, c_vals c = a :: l /\
+    res_ok (match srhs c with Some b => SOk [sv (kind_of a) (sf (abs a) b)] | None => SFree end)
+           (let! b := rhs_of c a in ret_v (f a b)) = true.
+Proof.
+  intros Hf HF Hb. unfold binop_okb in Hb. apply orb_true_iff in Hb. destruct Hb as [Hn|Hb].
+  - destruct (view2 c HF Hn) as (a & b & E & Ga & Gb). exists a, [b]. split; [assumption|].
+    unfold srhs, rhs_of. rewrite E. cbn [nth_error bind].
+    apply ret_v_same. apply Hf; assumption.
+  - rewrite !andb_true_iff in Hb. destruct Hb as [[Hn Ht] Hx].
+    apply std_widthb_spec in Ht. apply N.ltb_lt in Hx. rewrite pow2_eq in Hx.
+    destruct (view1 c HF Hn) as (a & E & Ga). exists a, []. split; [assumption|].
+    unfold srhs, rhs_of. rewrite E. cbn [nth_error].
+    destruct (lift_uint_spec a (arg c 0) (arg c 1) Ht Hx) as (b & -> & Gb & Ab). cbn [bind].
+    rewrite trunc_small by assumption. rewrite <- Ab.
+    apply ret_v_same. apply Hf; assumption.
+Qed.
+
+Ltac binop_case f sf Hf :=
+  let Hop := fresh "Hop" in let Hok := fresh "Hok" in let HF := fresh "HF" in let Ha := fresh "Ha" in
+  let a := fresh "a" in let l := fresh "l" in let E := fresh "E" in let H := fresh "H" in
+  intros Hop Hok; args_of Hok Hop HF Ha;
+  apply andb_true_iff in Ha; destruct Ha as [Ha _];
+  destruct (binop_core _ f sf Hf HF Ha) as (a & l & E & H);
+  open_case Hop; rewrite (val0_of _ a l E), (sval0_of _ a l E); cbn [bind]; exact H.
+
+Lemma bitop_hyp o a b : Good a -> Good b ->
+  exists r, x_bitop o a b = Ok r /\ Good r /\ kind_of r = kind_of a /\ abs r = s_bitop o (abs a) (abs b).
+Proof. intros Ga Gb. destruct (x_bitop_spec o a b Ga Gb) as (r & Hr & Gr & Kr & _ & Ar). eauto. Qed.
+
+Lemma addsub_hyp o a b : Good a -> Good b ->
+  exists r, x_addsub o a b = Ok r /\ Good r /\ kind_of r = kind_of a /\ abs r = s_addsub o (abs a) (abs b).
+Proof. intros Ga Gb. destruct (x_addsub_spec o a b Ga Gb) as (r & Hr & Gr & Kr & _ & Ar). eauto. Qed.
+
+Lemma mul_hyp P a b : Good a -> Good b ->
+  exists r, x_mul P a b = Ok r /\ Good r /\ kind_of r = kind_of a /\ abs r = s_mul (abs a) (abs b).
+Proof. intros Ga Gb. destruct (x_mul_spec P a b Ga Gb) as (r & Hr & Gr & Kr & _ & Ar). eauto. Qed.
+
+Lemma master_op_63 c : c_op c = 63 -> case_okb c = true -> prop_case c (run_case c) = true.
+Proof. binop_case (x_bitop OpAnd) s_and (bitop_hyp OpAnd). Qed.
+
+Lemma master_op_64 c : c_op c = 64 -> case_okb c = true -> prop_case c (run_case c) = true.
+Proof. binop_case (x_bitop OpOr) s_or (bitop_hyp OpOr). Qed.
+
+Lemma master_op_65 c : c_op c = 65 -> case_okb c = true -> prop_case c (run_case c) = true.
+Proof. binop_case (x_bitop OpXor) s_xor (bitop_hyp OpXor). Qed.
+
+Lemma master_op_66 c : c_op c = 66 -> case_okb c = true -> prop_case c (run_case c) = true.
+Proof. binop_case (x_addsub OpAdd) s_add (addsub_hyp OpAdd). Qed.
+
+Lemma master_op_67 c : c_op c = 67 -> case_okb c = true -> prop_case c (run_case c) = true.
+Proof. binop_case (x_addsub OpSub) s_sub (addsub_hyp OpSub). Qed.
+
+Lemma master_op_68 c : c_op c = 68 -> case_okb c = true -> prop_case c (run_case c) = true.
+Proof. binop_case (x_mul (c_prof c)) s_mul (mul_hyp (c_prof c)). Qed.
+
+(* ------------------------------------------------------------------ the Integer trait (90..93), Bit (97) *)
+
+Lemma cadd_full w a b cy : a < 2 ^ w -> b < 2 ^ w -> cy < 2 ^ w ->
+  cadd w a b cy = (trunc w (a + b + cy), N.shiftr (a + b + cy) w).
+Proof.
+  intros Ha Hb Hc. destruct (cadd w a b cy) as [v c'] eqn:E.
+  destruct (cadd_spec w a b cy v c' Ha Hb Hc E) as [Hs Hv].
+  rewrite trunc_mod, N.shiftr_div_pow2. f_equal.
+  - apply (N.mod_unique _ _ c'); [assumption|lia].
+  - apply (N.div_unique _ _ _ v); [assumption|lia].
+Qed.
+
+Lemma csub_full w a b cy : a < 2 ^ w -> b < 2 ^ w -> cy < 2 ^ w ->
+  csub w a b cy =
+  (let borrow := if a <? b + cy then (if a + pow2 w <? b + cy then 2 else 1) else 0 in
+   (a + borrow * pow2 w - b - cy, borrow)).
+Proof.
+  intros Ha Hb Hc. unfold csub, osub. cbv zeta. rewrite pow2_eq.
+  set (B := 2 ^ w) in *. clearbody B.
+  destruct (N.ltb_spec a b) as [H1|H1].
+  - destruct (N.ltb_spec (a + B - b) cy) as [H2|H2];
+      destruct (N.ltb_spec a (b + cy)) as [H3|H3]; try lia;
+      destruct (N.ltb_spec (a + B) (b + cy)) as [H4|H4]; try lia; f_equal; lia.
+  - destruct (N.ltb_spec (a - b) cy) as [H2|H2];
+      destruct (N.ltb_spec a (b + cy)) as [H3|H3]; try lia.
+    + destruct (N.ltb_spec (a + B) (b + cy)) as [H4|H4]; try lia. f_equal; lia.
+    + f_equal; lia.
+Qed.
+
+Lemma wmul_full w a b : 0 < w -> a < 2 ^ w -> b < 2 ^ w ->
+  wmul w a b = (trunc w (a * b), N.shiftr (a * b) w).
+Proof.
+  intros Hw Ha Hb. destruct (wmul w a b) as [lo hi] eqn:E.
+  destruct (wmul_spec w a b lo hi Hw Ha Hb E) as (Hs & Hlo & _).
+  rewrite trunc_mod, N.shiftr_div_pow2. f_equal.
+  - apply (N.mod_unique _ _ hi); [assumption|lia].
+  - apply (N.div_unique _ _ _ lo); [assumption|lia].
+Qed.
+
+Lemma ltb_pow2 x w : (x <? pow2 w) = true -> x < 2 ^ w.
+Proof. intros H. apply N.ltb_lt in H. rewrite pow2_eq in H. assumption. Qed.
+
+Lemma master_op_90 c : c_op c = 90 -> case_okb c = true -> prop_case c (run_case c) = true.
+Proof.
+  intros Hop Hok. args_of Hok Hop HF Ha.
+  rewrite !andb_true_iff in Ha. destruct Ha as [[[_ H1] H2] H3].
+  apply ltb_pow2 in H1. apply ltb_pow2 in H2. apply ltb_pow2 in H3.
+  open_case Hop. destruct (sval c 0) as [[ka a]|]; [reflexivity|].
+  rewrite cadd_full by assumption. cbn [res_ok items_ok item_ok]. rewrite !N.eqb_refl. reflexivity.
+Qed.
+
+Lemma master_op_91 c : c_op c = 91 -> case_okb c = true -> prop_case c (run_case c) = true.
+Proof.
+  intros Hop Hok. args_of Hok Hop HF Ha.
+  rewrite !andb_true_iff in Ha. destruct Ha as [[[_ H1] H2] H3].
+  apply ltb_pow2 in H1. apply ltb_pow2 in H2. apply ltb_pow2 in H3.
+  open_case Hop. destruct (sval c 0) as [[ka a]|]; [reflexivity|].
+  rewrite csub_full by assumption. cbv zeta. cbn [res_ok items_ok item_ok]. rewrite !N.eqb_refl. reflexivity.
+Qed.
+
+Lemma master_op_92 c : c_op c = 92 -> case_okb c = true -> prop_case c (run_case c) = true.
+Proof.
+  intros Hop Hok. args_of Hok Hop HF Ha.
+  rewrite !andb_true_iff in Ha. destruct Ha as [[Hw H1] H2].
+  apply ltb_pow2 in H1. apply ltb_pow2 in H2. apply std_widthb_spec, std_width_pos in Hw.
+  open_case Hop. destruct (sval c 0) as [[ka a]|]; [reflexivity|].
+  rewrite wmul_full by assumption. cbn [res_ok items_ok item_ok]. rewrite !N.eqb_refl. reflexivity.
+Qed.
+
+Lemma master_op_93 c : c_op c = 93 -> case_okb c = true -> prop_case c (run_case c) = true.
+Proof.
+  intros Hop Hok.
+  open_case Hop. destruct (sval c 0) as [[ka a]|]; [reflexivity|].
+  rewrite maskw_eq. cbn [res_ok items_ok item_ok]. rewrite !N.eqb_refl. reflexivity.
+Qed.
+
+Lemma master_op_97 c : c_op c = 97 -> case_okb c = true -> prop_case c (run_case c) = true.
+Proof.
+  intros Hop Hok.
+  open_case Hop. destruct (sval c 0) as [[ka a]|]; [reflexivity|].
+  cbn [res_ok items_ok item_ok]. rewrite !N.eqb_refl. reflexivity.
+Qed.
+
+(* ------------------------------------------------------------------ assembly *)
+
+Definition ops_B : list N :=
+  [40;41;42;43;44;45;46;47;49;50;51;52;53;54;55;56;57;58;60;61;62;63;64;65;66;67;68;90;91;92;93;97].
+
+Theorem master_B c : In (c_op c) ops_B -> case_okb c = true -> prop_case c (run_case c) = true.
+Proof.
+  intros Hin Hok. unfold ops_B in Hin. cbn [In] in Hin.
+  repeat (destruct Hin as [Hin|Hin]; [symmetry in Hin; revert Hin Hok|]); [..|destruct Hin].
+  - apply master_op_40.
+  - apply master_op_41.
+  - apply master_op_42.
+  - apply master_op_43.
+  - apply master_op_44.
+  - apply master_op_45.
+  - apply master_op_46.
+  - apply master_op_47.
+  - apply master_op_49.
+  - apply master_op_50.
+  - apply master_op_51.
+  - apply master_op_52.
+  - apply master_op_53.
+  - apply master_op_54.
+  - apply master_op_55.
+  - apply master_op_56.
+  - apply master_op_57.
+  - apply master_op_58.
+  - apply master_op_60.
+  - apply master_op_61.
+  - apply master_op_62.
+  - apply master_op_63.
+  - apply master_op_64.
+  - apply master_op_65.
+  - apply master_op_66.
+  - apply master_op_67.
+  - apply master_op_68.
+  - apply master_op_90.
+  - apply master_op_91.
+  - apply master_op_92.
+  - apply master_op_93.
+  - apply master_op_97.
+Qed.
